@@ -87,7 +87,7 @@ def run_case(case, schedule, opts):
         spec['outs'] = [[0.05, 'data.txt', 'x\n']]
         if '#' in name and name.split('#', 1)[1] == 'stop':
             it = int(name.split('#', 1)[0])
-            spec['outs'] = [[0.05, 'iteration.next', 'True\n' if it < k_target else 'False\n']]
+            spec['outs'] = [[0.05, 'iteration.next', 'True\n' if it < k_target else 'False\n', 'w']]
 
     ctx.on_launch = on_launch
     stop = None
